@@ -251,12 +251,10 @@ func cleanupDBData(db *sql.DB) error {
 	queryStr := fmt.Sprintf(
 		"DELETE from expiring_signed_user_data WHERE expiration_epoch < %d",
 		time.Now().Unix())
-	rows, err := db.Query(queryStr)
-	if err != nil {
+	if _, err := db.Exec(queryStr); err != nil {
 		logger.Printf("err='%s'", err)
 		return err
 	}
-	defer rows.Close()
 	return nil
 }
 
@@ -288,12 +286,14 @@ func copyDBIntoSQLite(source, destination *sql.DB,
 		return err
 	}
 	defer tx.Rollback()
-	deleteProfilesQueryStr := fmt.Sprintf("DELETE from user_profile ")
-	if rows, err := destination.Query(deleteProfilesQueryStr); err != nil {
-		logger.Printf("err='%s'", err)
-		return err
-	} else {
-		rows.Close()
+	// The deletes must be part of the transaction (and actually be executed:
+	// a Query() whose rows are closed unread is never stepped by sqlite).
+	for _, deleteStr := range []string{"DELETE from user_profile",
+		"DELETE from expiring_signed_user_data"} {
+		if _, err := tx.Exec(deleteStr); err != nil {
+			logger.Printf("err='%s'", err)
+			return err
+		}
 	}
 	stmtText := saveUserProfileStmt[destinationType]
 	stmt, err := tx.Prepare(stmtText)
